@@ -22,6 +22,11 @@ Transcribed source (pinned tree):
   pyatv/core/facade.py:763-789     FacadeAppleTV.takeover (all-or-nothing over the interfaces,
         returns the release function)
 
+`takeover p` is the takeover as protocol code performs it: `core.takeover(*interfaces)` on
+the Core that `pyatv.connect()` created for protocol p (pyatv/__init__.py: `partial(
+atv.takeover, proto)` handed to `create_core`), i.e. `FacadeAppleTV.takeover(p, ...)`; the
+harness exercises both that wiring and the direct facade call.
+
 Granularity.  The event loop's ready queue is explicit (`queue`, FIFO — asyncio's
 `call_soon` order is the runtime assumption): `post`/`change` *enqueue* a callback, the
 `drain` event runs everything queued.  The property's histories are the ones where every
